@@ -25,6 +25,26 @@ Proof.
     intros [= <-]. simpl. lia.
 Qed.
 
+(* ---- comparison (Time.IsEqualTo / IsAfterOrEqual): on valid times the offset is injective, so two times are
+   equal exactly when day shift, hour and minute coincide; the order is the order of the points in time ---- *)
+Lemma time_eq_spec a b : valid_time a -> valid_time b ->
+  (time_eqb a b = true <-> shift_of a = shift_of b /\ t_hour a = t_hour b /\ t_min a = t_min b).
+Proof.
+  intros (Ha1 & Ha2 & _) (Hb1 & Hb2 & _). unfold time_eqb. rewrite !offset_spec.
+  assert (Hs : forall t, -1 <= shift_of t <= 1) by (intro t; unfold shift_of; destruct (t_shift t <? 0); [lia|]; destruct (0 <? t_shift t); lia).
+  pose proof (Hs a). pose proof (Hs b). split; intros H1; lia.
+Qed.
+
+Lemma time_after_or_equal_spec a b :
+  time_geb a b = true <-> 1440 * shift_of b + 60 * t_hour b + t_min b <= 1440 * shift_of a + 60 * t_hour a + t_min a.
+Proof. unfold time_geb. rewrite !offset_spec. lia. Qed.
+
+Lemma time_order_total a b : time_geb a b = true \/ time_geb b a = true.
+Proof. unfold time_geb. lia. Qed.
+
+Lemma time_order_antisym a b : time_geb a b = true -> time_geb b a = true -> time_eqb a b = true.
+Proof. unfold time_geb, time_eqb. lia. Qed.
+
 (* ---- range ---- *)
 Lemma range_spec a b sp :
   (exists r, new_range a b sp = Ok r /\ range_minutes r = time_offset b - time_offset a /\ r_start r = a /\ r_end r = b)
